@@ -7,6 +7,7 @@ exactly up to depth K; P touches its stack only through push/pop/last (the summa
 nothing else), so behaviour at depth d>=2 depends on the top item only.
 """
 import itertools
+import os
 from collections import deque
 
 from . import iset
@@ -67,7 +68,7 @@ def vleaves(x, acc):
 
 
 class Product:
-    def __init__(self, pm, truncated, invalid, K=2, max_states=200000):
+    def __init__(self, pm, truncated, invalid, K=2, max_states=40000):
         self.pm = pm
         self.it = pm.it
         self.ref = Ref8259(truncated, invalid)
@@ -335,6 +336,11 @@ class Product:
                             rq.remove(pe)
                             self.stats["events_matched"] += 1
                             progress = True
+                    # the same fragment begun / completed by both sides with different data: a definite mismatch
+                    for pe in pq:
+                        for re_ in rq:
+                            if pe[0] == re_[0] and pe[1] == re_[1]:
+                                return None, None, (c, "fragment event differs: implementation %s, reference %s" % (show_ev(pe), show_ev(re_)))
                     continue
                 while pq and rq:
                     ok, res = self.match_one(pst, omap, c, pq[0], rq[0])
@@ -514,8 +520,14 @@ class Product:
             k = self.jkey(js)
             seen[k] = js
             work.append(js)
+        import time as _time
+        t_start = _time.time()
+        budget = float(os.environ.get("JSV_PRODUCT_BUDGET_S", "1500"))
         while work:
             js = work.popleft()
+            if _time.time() - t_start > budget:
+                self.report("E2.undecided", "time-limit", "exploration of the parser product did not finish within %d s (model does not converge): undecided" % budget)
+                break
             if len(seen) > self.max_states:
                 self.report("E2.undecided", "state-limit", "joint state limit %d exceeded (model does not converge): undecided" % self.max_states)
                 break
